@@ -121,8 +121,6 @@ Section Agree.
   Qed.
 
   (* ---- slices: all present bounds have a known int value *)
-  Definition int_valued (r : cresult) : bool := match rval r with Some (VInt _) => true | _ => false end.
-
   Lemma slice_sem lo hi st es b ob rs outs s :
     vstr b = Some s -> vagree b ob ->
     Forall2 vagree rs outs -> forallb int_valued rs = true ->
@@ -132,7 +130,7 @@ Section Agree.
     | CAbort _ => True
     end.
   Proof.
-    intros VS A F IV. rewrite (A _ (vstr_val _ _ VS)). unfold comb_slice. rewrite VS.
+    intros VS A F IV. rewrite (A _ (vstr_val _ _ VS)). unfold comb_slice. rewrite IV, VS.
     destruct lo, hi, st; destruct rs as [|r1 [|r2 [|r3 [|r4 rs]]]]; cbn [take_bound]; try exact I;
     repeat match goal with
       | F : Forall2 vagree (_ :: _) _ |- _ => inversion F; subst; clear F
@@ -158,17 +156,11 @@ Section Agree.
   Qed.
 
   (* ---- the general combine lemma for values *)
-  Definition bounds_ok (t : tag) (rs : list cresult) : Prop :=
-    match t, rs with
-    | NSlice _ _ _, b :: rest => vstr b <> None -> forallb int_valued rest = true
-    | _, _ => True
-    end.
-
   Lemma combine_value t es rs outs w r v :
-    Forall2 vagree rs outs -> bounds_ok t rs ->
+    Forall2 vagree rs outs ->
     combine t es rs = COk w r -> rval r = Some v -> rt_node pw t es outs = RVal v.
   Proof.
-    intros F BO C V. destruct t; cbn [combine] in C.
+    intros F C V. destruct t; cbn [combine] in C.
     - (* unary *)
       destruct rs as [|r1 [|? ?]]; try discriminate. inversion F as [|? o1 ? outs1 A1 F1]; subst. inversion F1; subst.
       exact (proj2 (unary_value _ _ _ _ _ _ A1 C V) es).
@@ -187,10 +179,15 @@ Section Agree.
     - (* slice *)
       destruct rs as [|b rest]; [discriminate|].
       inversion F as [|? ob ? outs1 A1 F1]; subst.
-      destruct (vstr b) as [s|] eqn:VS.
-      + pose proof (slice_sem lo hi st es b ob rest outs1 s VS A1 F1 (BO ltac:(congruence))) as SS.
+      destruct (forallb int_valued rest) eqn:IV; [destruct (vstr b) as [s|] eqn:VS|].
+      + pose proof (slice_sem lo hi st es b ob rest outs1 s VS A1 F1 IV) as SS.
         rewrite C in SS. exact (SS v V).
-      + unfold comb_slice in C. rewrite VS in C.
+      + unfold comb_slice in C. rewrite IV, VS in C.
+        destruct (take_bound lo rest) as [[x1 q1]|]; [|discriminate].
+        destruct (take_bound hi q1) as [[x2 q2]|]; [|discriminate].
+        destruct (take_bound st q2) as [[x3 [|? ?]]|]; try discriminate.
+        injection C as <- <-. discriminate.
+      + unfold comb_slice in C. rewrite IV in C.
         destruct (take_bound lo rest) as [[x1 q1]|]; [|discriminate].
         destruct (take_bound hi q1) as [[x2 q2]|]; [|discriminate].
         destruct (take_bound st q2) as [[x3 [|? ?]]|]; try discriminate.
@@ -200,52 +197,24 @@ Section Agree.
   Qed.
 
   (* ---- induction over expressions *)
-  Lemma int_valued_of e r : cexpr ds c e = POk r -> pvalued_int (cexpr ds c e) = int_valued r.
-  Proof. intros ->. reflexivity. Qed.
-
-  Lemma all_int_valued_rs : forall es t i rs, cexpr_list ds c t i es = inr rs ->
-    all_int_valued ds c es = forallb int_valued rs.
-  Proof.
-    induction es as [|e rest IH]; intros t i rs H.
-    - injection H as <-. reflexivity.
-    - rewrite cexpr_list_cons in H. destruct (cexpr ds c e) as [x|x|r] eqn:E; try discriminate.
-      destruct (precheck t i r); [discriminate|].
-      destruct (cexpr_list ds c t (S i) rest) as [p|rs'] eqn:E2; [discriminate|]. injection H as <-.
-      cbn. rewrite E. cbn. unfold int_valued at 1. now rewrite (IH _ _ _ E2).
-  Qed.
-
   Theorem value_agrees :
-    (forall e, unvalued_bound ds c e = false ->
-       forall r v, cexpr ds c e = POk r -> rval r = Some v -> rt_eval pw rho e = RVal v) /\
-    (forall es, unvalued_bound_list ds c es = false ->
-       forall t i rs, cexpr_list ds c t i es = inr rs -> Forall2 vagree rs (rt_eval_list pw rho es)).
+    (forall e r v, cexpr ds c e = POk r -> rval r = Some v -> rt_eval pw rho e = RVal v) /\
+    (forall es t i prev rs, cexpr_list ds c t i prev es = inr rs -> Forall2 vagree rs (rt_eval_list pw rho es)).
   Proof.
     apply expr_mutind.
-    - intros l _ r v H V. cbn in *. injection H as <-. destruct l; cbn in V; injection V as <-; reflexivity.
-    - intros n _ r v H V. cbn in *. destruct (is_decl ds n); [|discriminate].
+    - intros l r v H V. cbn in *. injection H as <-. destruct l; cbn in V; injection V as <-; reflexivity.
+    - intros n r v H V. cbn in *. destruct (is_decl ds n); [|discriminate].
       destruct (c n) as [r0|] eqn:E; [|discriminate]. injection H as <-. now rewrite (EA _ _ _ E V).
-    - intros t es IH U r v H V. rewrite cexpr_node in H. rewrite rt_eval_node.
-      change (bounds_unvalued ds c t es || unvalued_bound_list ds c es = false) in U.
-      apply orb_false_iff in U. destruct U as [U1 U2].
-      destruct (cexpr_list ds c t 0 es) as [p|rs] eqn:E.
+    - intros t es IH r v H V. rewrite cexpr_node in H. rewrite rt_eval_node.
+      destruct (cexpr_list ds c t 0 [] es) as [p|rs] eqn:E.
       + exfalso. eapply cexpr_list_inl; eassumption.
       + destruct (combine t es rs) as [err|w r0] eqn:C; [discriminate|]. injection H as <-.
-        eapply combine_value; [exact (IH U2 _ _ _ E)| |exact C|exact V].
-        (* bounds_ok from the class hypothesis *)
-        destruct t; try exact I. destruct es as [|b rest]; [injection E as <-; exact I|].
-        rewrite cexpr_list_cons in E. destruct (cexpr ds c b) as [x|x|rb] eqn:EB; try discriminate.
-        destruct (precheck (NSlice lo hi st) 0 rb); [discriminate|].
-        destruct (cexpr_list ds c (NSlice lo hi st) 1 rest) as [p|rs'] eqn:E2; [discriminate|]. injection E as <-.
-        cbn. intros VS. cbn in U1. rewrite EB in U1. cbn in U1.
-        unfold vstr in VS. destruct (rval rb) as [[]|]; try congruence. cbn in U1.
-        apply negb_false_iff in U1. now rewrite <- (all_int_valued_rs _ _ _ _ E2).
-    - intros _ t i rs H. injection H as <-. constructor.
-    - intros e IHe rest IHr U t i rs H. rewrite cexpr_list_cons in H. rewrite rt_eval_list_cons.
-      change (unvalued_bound ds c e || unvalued_bound_list ds c rest = false) in U.
-      apply orb_false_iff in U. destruct U as [U1 U2].
+        eapply combine_value; [exact (IH _ _ _ _ E)|exact C|exact V].
+    - intros t i prev rs H. injection H as <-. constructor.
+    - intros e IHe rest IHr t i prev rs H. rewrite cexpr_list_cons in H. rewrite rt_eval_list_cons.
       destruct (cexpr ds c e) as [x|x|r] eqn:E; try discriminate.
-      destruct (precheck t i r); [discriminate|].
-      destruct (cexpr_list ds c t (S i) rest) as [p|rs'] eqn:E2; [discriminate|]. injection H as <-.
+      destruct (precheck t i prev r); [discriminate|].
+      destruct (cexpr_list ds c t (S i) (prev ++ [r]) rest) as [p|rs'] eqn:E2; [discriminate|]. injection H as <-.
       constructor; [|eapply IHr; eassumption].
       intros v V. eapply IHe; eauto.
   Qed.
@@ -295,7 +264,7 @@ Section Agree.
       destruct (take_bound lo rest) as [[x1 q1]|]; [|discriminate].
       destruct (take_bound hi q1) as [[x2 q2]|]; [|discriminate].
       destruct (take_bound st q2) as [[x3 [|? ?]]|]; try discriminate.
-      destruct (vstr b) as [s0|]; [|injection C as <- <-; discriminate].
+      destruct (if forallb int_valued rest then vstr b else None) as [s0|]; [|injection C as <- <-; discriminate].
       destruct (cslice s0 x1 x2 x3); try discriminate. injection C as <- <-. cbn in *. injection V as <-. reflexivity.
     - discriminate.
     - discriminate.
@@ -305,22 +274,22 @@ Section Agree.
 
   Theorem results_well_typed :
     (forall e r, cexpr ds c e = POk r -> res_wt r) /\
-    (forall es t i rs, cexpr_list ds c t i es = inr rs -> Forall res_wt rs).
+    (forall es t i prev rs, cexpr_list ds c t i prev es = inr rs -> Forall res_wt rs).
   Proof.
     apply expr_mutind.
     - intros l r H. cbn in H. injection H as <-. intros v V. destruct l; cbn in *; injection V as <-; reflexivity.
     - intros n r H. cbn in H. destruct (is_decl ds n); [|discriminate].
       destruct (c n) as [r0|] eqn:E; [|discriminate]. injection H as <-. eapply CW; eassumption.
     - intros t es IH r H. rewrite cexpr_node in H.
-      destruct (cexpr_list ds c t 0 es) as [p|rs] eqn:E.
+      destruct (cexpr_list ds c t 0 [] es) as [p|rs] eqn:E.
       + exfalso. eapply cexpr_list_inl; eassumption.
       + destruct (combine t es rs) as [err|w r0] eqn:C; [discriminate|]. injection H as <-.
-        eapply combine_wt; [exact (IH _ _ _ E)|exact C].
-    - intros t i rs H. injection H as <-. constructor.
-    - intros e IHe rest IHr t i rs H. rewrite cexpr_list_cons in H.
+        eapply combine_wt; [exact (IH _ _ _ _ E)|exact C].
+    - intros t i prev rs H. injection H as <-. constructor.
+    - intros e IHe rest IHr t i prev rs H. rewrite cexpr_list_cons in H.
       destruct (cexpr ds c e) as [x|x|r] eqn:E; try discriminate.
-      destruct (precheck t i r); [discriminate|].
-      destruct (cexpr_list ds c t (S i) rest) as [p|rs'] eqn:E2; [discriminate|]. injection H as <-.
+      destruct (precheck t i prev r); [discriminate|].
+      destruct (cexpr_list ds c t (S i) (prev ++ [r]) rest) as [p|rs'] eqn:E2; [discriminate|]. injection H as <-.
       constructor; [apply (IHe r eq_refl)|eapply IHr; eassumption].
   Qed.
   (* ---- errors: on the valued strict fragment the compile-time diagnostic is the run-time exception *)
@@ -377,21 +346,29 @@ Section Agree.
       destruct (take_bound lo rest) as [[x1 q1]|]; [|discriminate].
       destruct (take_bound hi q1) as [[x2 q2]|]; [|discriminate].
       destruct (take_bound st q2) as [[x3 [|? ?]]|]; try discriminate.
-      destruct (vstr b) as [s0|]; [|discriminate].
+      destruct (if forallb int_valued rest then vstr b else None) as [s0|]; [|discriminate].
       destruct (cslice s0 x1 x2 x3); discriminate.
   Qed.
 
-  Lemma precheck_kind t i r err : precheck t i r = Some err -> err <> EIndexOOR /\ err <> EStepZero.
+  Lemma precheck_kind t i prev r err : precheck t i prev r = Some err -> err <> EIndexOOR /\ err <> EStepZero.
   Proof.
-    unfold precheck. destruct t; try discriminate. destruct i.
-    - destruct (is_str_like (rty r)); [discriminate|]. intros [= <-]. split; discriminate.
-    - destruct (is_intlike (rty r)); [discriminate|]. intros [= <-]. split; discriminate.
+    unfold precheck, elem_check. destruct t; try discriminate.
+    - destruct prev as [|f ?]; [discriminate|]. destruct (compat (rty r) (rty f)); [discriminate|].
+      intros [= <-]. split; discriminate.
+    - destruct prev as [|f ?]; [discriminate|]. destruct (compat (rty r) (rty f)); [discriminate|].
+      intros [= <-]. split; discriminate.
+    - destruct prev as [|k [|v ?]]; try discriminate.
+      destruct (compat (rty r) (rty (if Nat.even i then k else v))); [discriminate|].
+      intros [= <-]. split; discriminate.
+    - destruct i.
+      + destruct (is_str_like (rty r)); [discriminate|]. intros [= <-]. split; discriminate.
+      + destruct (is_intlike (rty r)); [discriminate|]. intros [= <-]. split; discriminate.
   Qed.
 
   Theorem error_agrees :
     (forall e, vfrag ds c e = true -> eagree (cexpr ds c e) (rt_eval pw rho e)) /\
-    (forall es, vfrag_list ds c es = true -> forall t i,
-       eagree_list (cexpr_list ds c t i es) (rt_eval_list pw rho es)).
+    (forall es, vfrag_list ds c es = true -> forall t i prev,
+       eagree_list (cexpr_list ds c t i prev es) (rt_eval_list pw rho es)).
   Proof.
     apply expr_mutind.
     - intros l _. cbn. destruct l; eexists; split; reflexivity.
@@ -400,24 +377,16 @@ Section Agree.
       destruct (rval r) as [v|] eqn:RV; [|discriminate].
       exists v. split; [exact RV|]. now rewrite (EA _ _ _ E RV).
     - intros t es IH V.
-      change (tag_strict t && vfrag_list ds c es && ok_valued (cexpr ds c (ENode t es)) && negb (bounds_unvalued ds c t es) = true) in V.
-      apply andb_true_iff in V. destruct V as [V BU]. apply andb_true_iff in V. destruct V as [V OV].
+      change (tag_strict t && vfrag_list ds c es && ok_valued (cexpr ds c (ENode t es)) = true) in V.
+      apply andb_true_iff in V. destruct V as [V OV].
       apply andb_true_iff in V. destruct V as [TS VL].
-      specialize (IH VL t O). rewrite rt_eval_node. rewrite cexpr_node in *.
-      destruct (cexpr_list ds c t 0 es) as [p|rs] eqn:E.
+      specialize (IH VL t O []). rewrite rt_eval_node. rewrite cexpr_node in *.
+      destruct (cexpr_list ds c t 0 [] es) as [p|rs] eqn:E.
       + (* a child failed *)
         cbn in IH. destruct p as [err|n|r]; try exact I.
         * destruct err; try exact I; cbn; apply rt_node_strict; assumption.
         * exfalso. eapply cexpr_list_inl; eauto.
       + cbn in IH. pose proof (sagree_vagree _ _ IH) as VA.
-        assert (bounds_ok t rs) as BO.
-        { destruct t; try exact I. destruct es as [|b rest]; [injection E as <-; exact I|].
-          rewrite cexpr_list_cons in E. destruct (cexpr ds c b) as [x|x|rb] eqn:EB; try discriminate.
-          destruct (precheck (NSlice lo hi st) 0 rb); [discriminate|].
-          destruct (cexpr_list ds c (NSlice lo hi st) 1 rest) as [p|rs'] eqn:E2; [discriminate|]. injection E as <-.
-          cbn. intros VS. cbn in BU. rewrite EB in BU. cbn in BU.
-          unfold vstr in VS. destruct (rval rb) as [[]|]; try congruence. cbn in BU.
-          apply negb_true_iff in BU. apply negb_false_iff in BU. now rewrite <- (all_int_valued_rs _ _ _ _ E2). }
         destruct (combine t es rs) as [err|w r] eqn:C.
         * destruct (strict_abort t es rs err TS C) as [SI SS].
           destruct err; try exact I; cbn.
@@ -428,27 +397,32 @@ Section Agree.
           -- destruct (SS eq_refl) as (lo & hi & st & ->). cbn [combine] in C.
              destruct rs as [|b rest]; [discriminate|].
              inversion VA as [|? ob ? outs1 A1 F1]; subst.
-             destruct (vstr b) as [s0|] eqn:VS.
-             ++ pose proof (slice_sem lo hi st es b ob rest outs1 s0 VS A1 F1 (BO ltac:(congruence))) as SS'.
+             destruct (forallb int_valued rest) eqn:IV; [destruct (vstr b) as [s0|] eqn:VS|].
+             ++ pose proof (slice_sem lo hi st es b ob rest outs1 s0 VS A1 F1 IV) as SS'.
                 rewrite C in SS'. exact SS'.
-             ++ exfalso. unfold comb_slice in C. rewrite VS in C.
+             ++ exfalso. unfold comb_slice in C. rewrite IV, VS in C.
+                destruct (take_bound lo rest) as [[x1 q1]|]; [|discriminate].
+                destruct (take_bound hi q1) as [[x2 q2]|]; [|discriminate].
+                destruct (take_bound st q2) as [[x3 [|? ?]]|]; discriminate.
+             ++ exfalso. unfold comb_slice in C. rewrite IV in C.
                 destruct (take_bound lo rest) as [[x1 q1]|]; [|discriminate].
                 destruct (take_bound hi q1) as [[x2 q2]|]; [|discriminate].
                 destruct (take_bound st q2) as [[x3 [|? ?]]|]; discriminate.
         * cbn in OV. destruct (rval r) as [v|] eqn:RV; [|discriminate].
           exists v. split; [exact RV|]. eapply combine_value; eassumption.
-    - intros _ t i. cbn. constructor.
-    - intros e IHe rest IHr V t i.
+    - intros _ t i prev. cbn. constructor.
+    - intros e IHe rest IHr V t i prev.
       change (vfrag ds c e && vfrag_list ds c rest = true) in V. apply andb_true_iff in V. destruct V as [V1 V2].
-      specialize (IHe V1). specialize (IHr V2 t (S i)).
+      specialize (IHe V1).
       rewrite cexpr_list_cons, rt_eval_list_cons.
       destruct (cexpr ds c e) as [err|n|r] eqn:E.
       + destruct err; try exact I; cbn in IHe |- *; now rewrite IHe.
       + exact I.
       + cbn in IHe. destruct IHe as (v & RV & ->).
-        destruct (precheck t i r) as [err|] eqn:P.
-        * destruct (precheck_kind _ _ _ _ P). destruct err; try exact I; congruence.
-        * destruct (cexpr_list ds c t (S i) rest) as [p|rs'] eqn:E2.
+        destruct (precheck t i prev r) as [err|] eqn:P.
+        * destruct (precheck_kind _ _ _ _ _ P). destruct err; try exact I; congruence.
+        * specialize (IHr V2 t (S i) (prev ++ [r])).
+          destruct (cexpr_list ds c t (S i) (prev ++ [r]) rest) as [p|rs'] eqn:E2.
           -- cbn in IHr |- *. destruct p as [err|n|r0]; try exact I.
              destruct err; try exact I; cbn in *; now rewrite IHr.
           -- cbn in IHr |- *. constructor; [exists v; split; [exact RV|reflexivity]|exact IHr].
